@@ -31,12 +31,16 @@ def seeded_table():
         b = os.path.basename(d)
         m = re.match(r"(R\d-)?C(\d+)-(\d+)", b)
         return (m.group(1) or "", int(m.group(2)), int(m.group(3))) if m else ("z", 0, 0)
+    notes_path = os.path.join(ROOT, "seeded", "notes.json")
+    notes = json.load(open(notes_path)) if os.path.exists(notes_path) else {}
     for d in sorted(glob.glob(os.path.join(ROOT, "seeded", "*")), key=key):
         mp = os.path.join(d, "meta.json")
         if not os.path.exists(mp):
             continue
         m = json.load(open(mp))
         caught = ", ".join(m.get("caught_by", [])) or "**missed**"
+        if os.path.basename(d) in notes and not m.get("caught_by"):
+            caught = notes[os.path.basename(d)]
         missed = [k for k, v in m.get("checks_run", {}).items() if v.get("exit") != 1]
         if missed and m.get("caught_by"):
             caught += " (not by: %s)" % ", ".join(missed)
